@@ -10,7 +10,7 @@ use binrw::BinRead;
 use binrw::BinReaderExt;
 use binrw::{BinWrite, BinWriterExt, binrw};
 
-use crate::common_file_operations::{read_bool_from, write_bool_as};
+use crate::common_file_operations::{read_bool_from, read_bytes, write_bool_as};
 use crate::model_vertex_declarations::{
     VERTEX_ELEMENT_SIZE, VertexDeclaration, VertexType, VertexUsage, vertex_element_parser,
     vertex_element_writer,
@@ -89,7 +89,7 @@ pub struct ModelHeader {
     string_count: u16,
     string_size: u32,
 
-    #[br(count = string_size)]
+    #[br(parse_with = read_bytes, args(string_size as u64))]
     strings: Vec<u8>,
 
     radius: f32,
